@@ -90,6 +90,9 @@ func runAcceptSeq(seq string) (obs string, problems []string) {
 			if nTemp%3 == 2 {
 				terr = &net.OpError{Op: "accept", Net: "mem", Err: tempError{timeout: true}}
 			}
+			if nTemp%4 == 3 || nTemp%4 == 0 {
+				terr = aggTempError{errs: []error{errPermanent}} // a value of an UNCOMPARABLE type (it has a slice field), twice in a row
+			}
 			lis.ch <- acceptResult{err: terr}
 			lis.noteSent()
 			// wait for the retry log line
@@ -229,6 +232,13 @@ func runAcceptSeq(seq string) (obs string, problems []string) {
 	}
 	return strings.Join(acts, ",") + "|" + result, problems
 }
+
+// aggTempError: a temporary error whose dynamic type is not comparable (== on two of them panics)
+type aggTempError struct{ errs []error }
+
+func (aggTempError) Error() string   { return "several temporary accept errors" }
+func (aggTempError) Timeout() bool   { return false }
+func (aggTempError) Temporary() bool { return true }
 
 func resultName(err error) string {
 	if err == nil {
@@ -534,34 +544,41 @@ func suiteDiscover(args []string) {
 		}
 	}()
 	// defaulting: an empty configuration becomes a fresh copy of 1.4, 1.3, 1.2, 1.1
-	func() {
-		before := pvText(kmip.DefaultSupportedVersions)
-		s := &kmip.Server{Log: log.New(&lockedBuffer{}, "", 0)}
-		lis := newMemListener()
-		init := make(chan struct{})
-		served := make(chan error, 1)
-		go func() { served <- s.Serve(lis, init) }()
-		<-init
-		ctx, cancel := contextWithTimeout(2 * time.Second)
-		defer cancel()
-		s.Shutdown(ctx)
-		<-served
-		got := pvText(s.SupportedVersions)
-		if got != "1.4,1.3,1.2,1.1" {
-			rep.Violations = append(rep.Violations, map[string]interface{}{"kind": "default", "what": "empty SupportedVersions does not default to 1.4, 1.3, 1.2, 1.1", "got": got})
-		}
-		if len(s.SupportedVersions) > 0 && len(kmip.DefaultSupportedVersions) > 0 && &s.SupportedVersions[0] == &kmip.DefaultSupportedVersions[0] {
-			rep.Violations = append(rep.Violations, map[string]interface{}{"kind": "default", "what": "the defaulted configuration aliases DefaultSupportedVersions"})
-		}
-		for i := range s.SupportedVersions {
-			s.SupportedVersions[i] = kmip.ProtocolVersion{Major: 9, Minor: 9}
-		}
-		if pvText(kmip.DefaultSupportedVersions) != before {
-			rep.Violations = append(rep.Violations, map[string]interface{}{"kind": "default", "what": "writing to the server's list changed DefaultSupportedVersions"})
-			copy(kmip.DefaultSupportedVersions, []kmip.ProtocolVersion{{Major: 1, Minor: 4}, {Major: 1, Minor: 3}, {Major: 1, Minor: 2}, {Major: 1, Minor: 1}})
-		}
-		rep.Distribution["defaulting"]++
-	}()
+	for variant := 0; variant < 2; variant++ {
+		func() {
+			before := pvText(kmip.DefaultSupportedVersions)
+			s := &kmip.Server{Log: log.New(&lockedBuffer{}, "", 0)}
+			if variant == 1 {
+				// the fields of a Server may be filled in in any order before Serve: a handler registered first, versions left unset
+				s.Handle(kmip.OPERATION_GET, func(*kmip.RequestContext, *kmip.RequestBatchItem) (interface{}, error) { return nil, nil })
+				s.SupportedVersions = nil
+			}
+			lis := newMemListener()
+			init := make(chan struct{})
+			served := make(chan error, 1)
+			go func() { served <- s.Serve(lis, init) }()
+			<-init
+			ctx, cancel := contextWithTimeout(2 * time.Second)
+			defer cancel()
+			s.Shutdown(ctx)
+			<-served
+			got := pvText(s.SupportedVersions)
+			if got != "1.4,1.3,1.2,1.1" {
+				rep.Violations = append(rep.Violations, map[string]interface{}{"kind": "default", "what": "empty SupportedVersions does not default to 1.4, 1.3, 1.2, 1.1", "got": got})
+			}
+			if len(s.SupportedVersions) > 0 && len(kmip.DefaultSupportedVersions) > 0 && &s.SupportedVersions[0] == &kmip.DefaultSupportedVersions[0] {
+				rep.Violations = append(rep.Violations, map[string]interface{}{"kind": "default", "what": "the defaulted configuration aliases DefaultSupportedVersions"})
+			}
+			for i := range s.SupportedVersions {
+				s.SupportedVersions[i] = kmip.ProtocolVersion{Major: 9, Minor: 9}
+			}
+			if pvText(kmip.DefaultSupportedVersions) != before {
+				rep.Violations = append(rep.Violations, map[string]interface{}{"kind": "default", "what": "writing to the server's list changed DefaultSupportedVersions"})
+				copy(kmip.DefaultSupportedVersions, []kmip.ProtocolVersion{{Major: 1, Minor: 4}, {Major: 1, Minor: 3}, {Major: 1, Minor: 2}, {Major: 1, Minor: 1}})
+			}
+			rep.Distribution["defaulting"]++
+		}()
+	}
 	cw.close()
 	rep.Evaluations = cw.n
 	rep.Samples = append(rep.Samples, map[string]interface{}{"supported": "1.4,1.2", "offer": "1.2,2.0,1.4"})
